@@ -197,6 +197,19 @@ def gen_c02_incoming_churn(r):
     return g
 
 
+def gen_c02_same_address_twice(r):
+    """A listed seeder that, while the client is downloading from it, also connects in from its own
+    listening port (legal TCP; some clients bind outgoing connections to their listening port), so
+    that the client sees two connections with one remote address, and closes the second one again."""
+    g, n = gen_geometry(r)
+    peers = [dict(port=7001, id="-FK0000-abcdefghijkl", incoming=False, have=[True] * n, seed=r.getrandbits(32), chunk=0, latency_ms=r.choice([30, 80, 200]), unchoke_delay_ms=r.choice([0, 200]),
+                  second_connection_from_own_port=True, second_after_ms=r.choice([50, 200, 600]), second_linger_ms=r.choice([100, 400, 1500]))]
+    if r.random() < 0.5:
+        peers.append(dict(port=7002, id="-FK0001-abcdefghijkl", incoming=False, have=[r.random() < 0.5 for _ in range(n)], seed=r.getrandbits(32), chunk=0, latency_ms=50, unchoke_delay_ms=0))
+    g.update(peers=peers, tracker_faults=[], tracker_port=8000, timeout_s=90, stall_s=15)
+    return g
+
+
 def gen_c02_late_handshake(r):
     """An inbound seeder with exclusive pieces sends its handshake only after a pause, while a
     dialled seeder is being downloaded from (the client's main loop is busy with other events
@@ -347,9 +360,9 @@ def e2e(cid, tier, seed, jobs, scale, outdir, m, log, asan=False):
         if tier == "thorough":
             scs += [gen_c02_dead_peers(r) for _ in range(10)] + [gen_c02_all_incoming(r) for _ in range(20)]
     if cid == "C02" and not asan:
-        scs += [gen_c02_incoming_churn(r), gen_c02_late_handshake(r), gen_c02_late_handshake(r), gen_c02_late_handshake(r)]
+        scs += [gen_c02_incoming_churn(r), gen_c02_late_handshake(r), gen_c02_late_handshake(r), gen_c02_late_handshake(r)] + [gen_c02_same_address_twice(r) for _ in range(4)]
         if tier == "thorough":
-            scs += [gen_c02_incoming_churn(r) for _ in range(8)] + [gen_c02_late_handshake(r) for _ in range(24)]
+            scs += [gen_c02_incoming_churn(r) for _ in range(8)] + [gen_c02_late_handshake(r) for _ in range(24)] + [gen_c02_same_address_twice(r) for _ in range(40)]
     if cid == "C01" and not asan:
         scs += [gen_c01_mislabel(r) for _ in range(4 if tier == "quick" else 60)]
     if cid == "C20" and not asan and tier == "thorough":
@@ -375,7 +388,7 @@ def e2e(cid, tier, seed, jobs, scale, outdir, m, log, asan=False):
         m["evaluations"] += 1
         v = res.get("verdict")
         desc = {k: sc[k] for k in ("piece_length", "files", "single", "tracker_faults")} | {k: sc[k] for k in ("tracker_delivery", "torrent_rel", "hostile_name") if k in sc}
-        desc["peers"] = [{k: p.get(k) for k in ("port", "host", "incoming", "chunk", "latency_ms", "choke_after_blocks", "disconnect_after_blocks", "mid_frame", "corrupt_permille", "noise_permille", "kind", "script", "connect_delay_ms", "handshake_delay_ms", "keepalive_every_s") if p.get(k) is not None} | {"pieces": "".join("1" if b else "0" for b in p["have"])} for p in sc["peers"]]
+        desc["peers"] = [{k: p.get(k) for k in ("port", "host", "incoming", "chunk", "latency_ms", "choke_after_blocks", "disconnect_after_blocks", "mid_frame", "corrupt_permille", "noise_permille", "kind", "script", "connect_delay_ms", "handshake_delay_ms", "keepalive_every_s", "second_connection_from_own_port", "second_after_ms", "second_linger_ms") if p.get(k) is not None} | {"pieces": "".join("1" if b else "0" for b in p["have"])} for p in sc["peers"]]
         wit = {"engine": tag, "scenario": desc, "result": {k: res.get(k) for k in ("verdict", "detail", "elapsed_s", "panics", "sanitizer", "piece_problems", "hostile", "closed_by_client", "conn_life", "outside_start_dir", "peak_rss_kb", "log_tail", "stdout_tail")}}
         _count(m, "%s:%s" % (tag, v))
         if res.get("sanitizer"):
